@@ -14,6 +14,9 @@ set_option linter.unusedSimpArgs false
 
 variable {α : Type} [Val α]
 
+/- helper lemmas live in the namespace `Rtamt.Py.Dn.GenBack` (several `GenDense*.lean` files define helpers of the same name) -/
+namespace GenBack
+
 /-! ### `intersect.intersects` -/
 
 theorem gen_intersects (fuel k : Nat) (x1 x2 y1 y2 : Tm) :
@@ -28,6 +31,13 @@ theorem gen_intersects (fuel k : Nat) (x1 x2 y1 y2 : Tm) :
 
 def encSeg (g : Seg α) : DV α := .seg g.lo g.hi g.v
 def encSegs (l : List (Seg α)) : DV α := .list (l.map encSeg)
+
+/-- the argument `begin`: a time stamp or - `until_timed_operation` calls `always_timed_operation(out2, 0, begin)` - the
+    integer literal `0` -/
+def BegOK (x : DV α) (a : Rat) : Prop := x = .tm (.fin a) ∨ (x = .int 0 ∧ a = 0)
+
+theorem BegOK.tm (a : Rat) : BegOK (.tm (.fin a) : DV α) a := .inl rfl
+theorem BegOK.int0 : BegOK (.int 0 : DV α) 0 := .inr ⟨rfl, rfl⟩
 
 def mkB : S :=
   (.ite (.bin .eq (.loc "i") (.bin .sub (.call1 "len" (.loc "input_list")) (.int 1))) (.setLoc "b" (.tup3 (.bin .sub (.idx (.idx (.loc "input_list") (.loc "i")) (.int 0)) (.loc "end")) .inf (.idx (.idx (.loc "input_list") (.loc "i")) (.int 1)))) (.setLoc "b" (.tup3 (.bin .sub (.idx (.idx (.loc "input_list") (.loc "i")) (.int 0)) (.loc "end")) (.bin .sub (.idx (.idx (.loc "input_list") (.bin .add (.loc "i") (.int 1))) (.int 0)) (.loc "begin")) (.idx (.idx (.loc "input_list") (.loc "i")) (.int 1)))))
@@ -239,8 +249,14 @@ theorem mkB_step (call : Call α) (fuel : Nat) (env : Env α) (l1 : List (DV α)
     (hr : resolve env "len" = "len")
     (hIn : getLoc "input_list" env = .ok (.list (l1 ++ encSmp p :: post.map encSmp)))
     (hi : getLoc "i" env = .ok (.int l1.length))
-    (hb : getLoc "begin" env = .ok (.tm (.fin a))) (he : getLoc "end" env = .ok (.tm (.fin b))) :
+    (hb : ∃ xb, getLoc "begin" env = .ok xb ∧ BegOK xb a) (he : getLoc "end" env = .ok (.tm (.fin b))) :
     exec call fuel mkB env = .ok (setLoc "b" (encSeg (segOf a b p post)) env, none) := by
+  obtain ⟨xb, hb, hxb⟩ := hb
+  have hsub : ∀ t : Tm, evalBin .sub (.tm t : DV α) xb = .ok (.tm (t.sub a)) := by
+    intro t
+    rcases hxb with rfl | ⟨rfl, rfl⟩
+    · simp [evalBin, isCmp, arith, isTimeLike, toTm]
+    · cases t <;> simp [evalBin, isCmp, arith, isTimeLike, toTm, Tm.sub]
   have h0 : ∀ l2, evalIdx (.list (l1 ++ encSmp p :: l2)) (.int (l1.length : Int)) = .ok (encSmp p) :=
     fun l2 => evalIdx_nat _ _ _ (by simp)
   cases post with
@@ -253,8 +269,13 @@ theorem mkB_step (call : Call α) (fuel : Nat) (env : Env α) (l1 : List (DV α)
           have := evalIdx_nat (l1 ++ encSmp p :: encSmp q :: l2) (l1.length + 1) (encSmp q) (by simp)
           simpa using this
       have hc : ¬ ((l1.length : Int) = (l1.length : Int) + ((post.length : Int) + 1 + 1) - 1) := by omega
-      simp [mkB, exec, evalE, hIn, hi, hb, he, hr, hlen, h0, h1, hc, evalBin, isCmp, cmpDV, cmpInt, arith, isTimeLike, toTm,
-        mkSeg, toVal, truthy, Except.map, encSeg, segOf]
+      have hsubb : ∀ t : Tm, evalBin .sub (.tm t : DV α) (.tm (.fin b)) = .ok (.tm (t.sub b)) := fun t => by
+        simp [evalBin, isCmp, arith, isTimeLike, toTm]
+      have hieq : evalBin .eq (.int (l1.length : Int) : DV α)
+          (.int ((l1.length : Int) + ((post.length : Int) + 1 + 1) - 1)) = .ok (.bool false) := by
+        simp [evalBin, isCmp, cmpDV, cmpInt, hc, Except.map]
+      simp [mkB, exec, evalE, hIn, hi, hb, he, hr, hlen, h0, h1, hsub, hsubb, hieq, evalBin_sub_int, evalBin_add_int,
+        mkSeg, toTm, toVal, truthy, encSeg, segOf]
 
 /-! ### the inner loop: `while (a[2] > b[2]) and (b[1] > a[1]): out.pop(0); a = out[0]` -/
 
@@ -411,7 +432,7 @@ theorem pushS_step (call : Call α) (fuel : Nat) (env : Env α) (out : List (Seg
 
 /-- the locals the loops only read -/
 def Stable (env : Env α) (L : List (DV α)) (a b : Rat) : Prop :=
-  getLoc "input_list" env = .ok (.list L) ∧ getLoc "begin" env = .ok (.tm (.fin a)) ∧
+  getLoc "input_list" env = .ok (.list L) ∧ (∃ xb, getLoc "begin" env = .ok xb ∧ BegOK xb a) ∧
     getLoc "end" env = .ok (.tm (.fin b)) ∧ resolve env "len" = "len" ∧ resolve env "intersects" = "intersects"
 
 theorem Stable.frame {env env' : Env α} {L : List (DV α)} {a b : Rat} (h : Stable env L a b)
@@ -419,7 +440,8 @@ theorem Stable.frame {env env' : Env α} {L : List (DV α)} {a b : Rat} (h : Sta
   obtain ⟨h1, h2, h3, h4, h5⟩ := h
   refine ⟨?_, ?_, ?_, ?_, ?_⟩
   · rw [hf.getLoc _ (by simp)]; exact h1
-  · rw [hf.getLoc _ (by simp)]; exact h2
+  · obtain ⟨xb, h2, h2'⟩ := h2
+    exact ⟨xb, by rw [hf.getLoc _ (by simp)]; exact h2, h2'⟩
   · rw [hf.getLoc _ (by simp)]; exact h3
   · rw [hf.resolve _ (by simp)]; exact h4
   · rw [hf.resolve _ (by simp)]; exact h5
@@ -635,8 +657,8 @@ theorem domEnd_step (call : Call α) (fuel : Nat) (env : Env α) (s : ASig α)
       refine ⟨setLoc "domain_end" (.tm p.1) env, ?_, by frame_tac⟩
       simp [domEnd, exec, evalE, hIn, hr, hlen, truthy, evalBin_sub_int, h0]
 
-def env0 (s : ASig α) (a b : Rat) : Env α :=
-  [("sample", encSig s), ("begin", .tm (.fin a)), ("end", .tm (.fin b))]
+def env0 (s : ASig α) (xb : DV α) (b : Rat) : Env α :=
+  [("sample", encSig s), ("begin", xb), ("end", .tm (.fin b))]
 
 /-- what the code after the initialisations relies on -/
 def Init (env : Env α) (s : ASig α) (a b : Rat) : Prop :=
@@ -648,7 +670,8 @@ theorem Init.frame {env env' : Env α} {s : ASig α} {a b : Rat} (h : Init env s
   obtain ⟨⟨h1, h2, h3, h4, h5⟩, h6, h7, h8⟩ := h
   refine ⟨⟨?_, ?_, ?_, ?_, ?_⟩, ?_, ?_, ?_⟩
   · rw [hf.getLoc _ (by simp)]; exact h1
-  · rw [hf.getLoc _ (by simp)]; exact h2
+  · obtain ⟨xb, h2, h2'⟩ := h2
+    exact ⟨xb, by rw [hf.getLoc _ (by simp)]; exact h2, h2'⟩
   · rw [hf.getLoc _ (by simp)]; exact h3
   · rw [hf.resolve _ (by simp)]; exact h4
   · rw [hf.resolve _ (by simp)]; exact h5
@@ -656,37 +679,37 @@ theorem Init.frame {env env' : Env α} {s : ASig α} {a b : Rat} (h : Init env s
   · rw [hf.getLoc _ (by simp)]; exact h7
   · rw [hf.getLoc _ (by simp)]; exact h8
 
-theorem alwPre_run (call : Call α) (fuel : Nat) (s : ASig α) (a b : Rat)
+theorem alwPre_run (call : Call α) (fuel : Nat) (s : ASig α) (a b : Rat) (xb : DV α) (hxb : BegOK xb a)
     (hlen : ∀ l, call "len" [.list l] = .ok (.int l.length)) :
-    ∃ env, (∀ R, exec call fuel (alwPre R) (env0 s a b) = exec call fuel R env) ∧ Init env s a b := by
+    ∃ env, (∀ R, exec call fuel (alwPre R) (env0 s xb b) = exec call fuel R env) ∧ Init env s a b := by
   refine ⟨setLoc "domain_end" (.uinf false) (setLoc "i" (.int ((s.length : Int) - 1)) (setLoc "ans" (.list [])
     (setLoc "input_list" (encSig s) (setLoc "out" (.list []) (setLoc "max" (.uinf false)
-    (setLoc "residual_start" (.uinf false) (setLoc "prev" (.list []) (env0 s a b)))))))), ?_, ?_⟩
+    (setLoc "residual_start" (.uinf false) (setLoc "prev" (.list []) (env0 s xb b)))))))), ?_, ?_⟩
   · intro R
     simp [alwPre, exec, evalE, env0, hlen, encSig, evalBin_sub_int]
-  · simp [Init, Stable, env0, encSig, encSegs]
+  · simp [Init, Stable, env0, encSig, encSegs, hxb]
 
-theorem evPre_run (call : Call α) (fuel : Nat) (s : ASig α) (a b : Rat)
+theorem evPre_run (call : Call α) (fuel : Nat) (s : ASig α) (a b : Rat) (xb : DV α) (hxb : BegOK xb a)
     (hlen : ∀ l, call "len" [.list l] = .ok (.int l.length)) :
-    ∃ env, (∀ R, exec call fuel (evPre R) (env0 s a b) = exec call fuel R env) ∧ Init env s a b := by
+    ∃ env, (∀ R, exec call fuel (evPre R) (env0 s xb b) = exec call fuel R env) ∧ Init env s a b := by
   refine ⟨setLoc "domain_end" (.uinf false) (setLoc "i" (.int ((s.length : Int) - 1)) (setLoc "max" (.uinf true)
     (setLoc "residual_start" (.uinf true) (setLoc "prev" (.list []) (setLoc "ans" (.list [])
-    (setLoc "input_list" (encSig s) (setLoc "out" (.list []) (env0 s a b)))))))), ?_, ?_⟩
+    (setLoc "input_list" (encSig s) (setLoc "out" (.list []) (env0 s xb b)))))))), ?_, ?_⟩
   · intro R
     simp [evPre, exec, evalE, env0, hlen, encSig, evalBin_sub_int, evalNeg]
-  · simp [Init, Stable, env0, encSig, encSegs]
+  · simp [Init, Stable, env0, encSig, encSegs, hxb]
 
 /-! ### the two functions -/
 
 theorem full_run (w : α → α → Bool) (op1 op2 : BinOp)
     (hop1 : ∀ x y : α, evalBin op1 (.val x : DV α) (.val y) = .ok (.bool (w x y)))
     (hop2 : ∀ x y : α, evalBin op2 (.val x : DV α) (.val y) = .ok (.bool (!w x y)))
-    (call : Call α) (fuel : Nat) (s : ASig α) (a b : Rat)
+    (call : Call α) (fuel : Nat) (s : ASig α) (a b : Rat) (xb : DV α)
     (hlen : ∀ l, call "len" [.list l] = .ok (.int l.length))
     (hint : ∀ x1 x2 y1 y2, call "intersects" [.tm x1, .tm x2, .tm y1, .tm y2] = .ok (.bool (intersects x1 x2 y1 y2)))
     (hfuel : s.length + 1 ≤ fuel) (pre : S → S)
-    (hpre : ∃ env, (∀ R, exec call fuel (pre R) (env0 s a b) = exec call fuel R env) ∧ Init env s a b) :
-    (do let (_, r) ← exec call fuel (pre (.seq domEnd (restS op1 op2))) (env0 s a b); pure (r.getD .none) :
+    (hpre : ∃ env, (∀ R, exec call fuel (pre R) (env0 s xb b) = exec call fuel R env) ∧ Init env s a b) :
+    (do let (_, r) ← exec call fuel (pre (.seq domEnd (restS op1 op2))) (env0 s xb b); pure (r.getD .none) :
         Except PyErr (DV α)) = (backTimed w s a b).map encSig := by
   obtain ⟨env, h1, h2⟩ := hpre
   obtain ⟨env', k1, k2⟩ := domEnd_step call fuel env s hlen h2.1.2.2.2.1 h2.1.1
@@ -700,32 +723,60 @@ theorem len_builtin (fuel k : Nat) (l : List (DV α)) :
 
 /-- `always_timed_operation(sample, begin, end)`, translated from the source, computes what the mirror `alwTimed`
     computes (values and `IndexError`), for every sample list, at every call depth, with fuel `len(sample) + 1`. -/
-theorem gen_alw_timed (fuel k : Nat) (s : ASig α) (a b : Rat) (hfuel : s.length + 1 ≤ fuel) :
-    callAt Gen.Dense.fns fuel (k + 2) "always_timed_operation" [encSig s, .tm (.fin a), .tm (.fin b)]
+theorem gen_alw_timed_beg (fuel k : Nat) (s : ASig α) (a b : Rat) (x : DV α) (hx : BegOK x a)
+    (hfuel : s.length + 1 ≤ fuel) :
+    callAt Gen.Dense.fns fuel (k + 2) "always_timed_operation" [encSig s, x, .tm (.fin b)]
       = (alwTimed s a b).map encSig := by
   rw [callAt_fn _ _ _ _ Gen.Dense.fn_always_timed_operation _ rfl]
   have := full_run (α := α) gtW .gt .le
     (by intro x y; simp [evalBin, isCmp, cmpDV, isTimeLike, isValLike, toVal, cmpVal, gtW, Except.map])
     (by intro x y; simp [evalBin, isCmp, cmpDV, isTimeLike, isValLike, toVal, cmpVal, gtW, Except.map])
-    (callAt Gen.Dense.fns fuel (k + 1)) fuel s a b (len_builtin fuel (k + 1)) (gen_intersects fuel k) hfuel alwPre
-    (alwPre_run _ fuel s a b (len_builtin fuel (k + 1)))
+    (callAt Gen.Dense.fns fuel (k + 1)) fuel s a b x (len_builtin fuel (k + 1)) (gen_intersects fuel k) hfuel alwPre
+    (alwPre_run _ fuel s a b x hx (len_builtin fuel (k + 1)))
   unfold runFn
   rw [alw_body_eq]
   exact this
 
+theorem _root_.Rtamt.Py.Dn.gen_alw_timed (fuel k : Nat) (s : ASig α) (a b : Rat) (hfuel : s.length + 1 ≤ fuel) :
+    callAt Gen.Dense.fns fuel (k + 2) "always_timed_operation" [encSig s, .tm (.fin a), .tm (.fin b)]
+      = (alwTimed s a b).map encSig :=
+  gen_alw_timed_beg fuel k s a b _ (BegOK.tm a) hfuel
+
+/-- the same with the integer literal `0` as `begin` (the call `always_timed_operation(out2, 0, begin)` of
+    `until_timed_operation`) -/
+theorem _root_.Rtamt.Py.Dn.gen_alw_timed_int0 (fuel k : Nat) (s : ASig α) (b : Rat) (hfuel : s.length + 1 ≤ fuel) :
+    callAt Gen.Dense.fns fuel (k + 2) "always_timed_operation" [encSig s, .int 0, .tm (.fin b)]
+      = (alwTimed s 0 b).map encSig :=
+  gen_alw_timed_beg fuel k s 0 b _ BegOK.int0 hfuel
+
 /-- `eventually_timed_operation(sample, begin, end)`, translated from the source, computes what the mirror `evTimed`
     computes. -/
-theorem gen_ev_timed (fuel k : Nat) (s : ASig α) (a b : Rat) (hfuel : s.length + 1 ≤ fuel) :
-    callAt Gen.Dense.fns fuel (k + 2) "eventually_timed_operation" [encSig s, .tm (.fin a), .tm (.fin b)]
+theorem gen_ev_timed_beg (fuel k : Nat) (s : ASig α) (a b : Rat) (x : DV α) (hx : BegOK x a)
+    (hfuel : s.length + 1 ≤ fuel) :
+    callAt Gen.Dense.fns fuel (k + 2) "eventually_timed_operation" [encSig s, x, .tm (.fin b)]
       = (evTimed s a b).map encSig := by
   rw [callAt_fn _ _ _ _ Gen.Dense.fn_eventually_timed_operation _ rfl]
   have := full_run (α := α) ltW .lt .ge
     (by intro x y; simp [evalBin, isCmp, cmpDV, isTimeLike, isValLike, toVal, cmpVal, ltW, Except.map])
     (by intro x y; simp [evalBin, isCmp, cmpDV, isTimeLike, isValLike, toVal, cmpVal, ltW, Except.map])
-    (callAt Gen.Dense.fns fuel (k + 1)) fuel s a b (len_builtin fuel (k + 1)) (gen_intersects fuel k) hfuel evPre
-    (evPre_run _ fuel s a b (len_builtin fuel (k + 1)))
+    (callAt Gen.Dense.fns fuel (k + 1)) fuel s a b x (len_builtin fuel (k + 1)) (gen_intersects fuel k) hfuel evPre
+    (evPre_run _ fuel s a b x hx (len_builtin fuel (k + 1)))
   unfold runFn
   rw [ev_body_eq]
   exact this
+
+theorem _root_.Rtamt.Py.Dn.gen_ev_timed (fuel k : Nat) (s : ASig α) (a b : Rat) (hfuel : s.length + 1 ≤ fuel) :
+    callAt Gen.Dense.fns fuel (k + 2) "eventually_timed_operation" [encSig s, .tm (.fin a), .tm (.fin b)]
+      = (evTimed s a b).map encSig :=
+  gen_ev_timed_beg fuel k s a b _ (BegOK.tm a) hfuel
+
+/-- the same with the integer literal `0` as `begin` (the call `eventually_timed_operation(out2, 0, begin)` of
+    `until_timed_operation`) -/
+theorem _root_.Rtamt.Py.Dn.gen_ev_timed_int0 (fuel k : Nat) (s : ASig α) (b : Rat) (hfuel : s.length + 1 ≤ fuel) :
+    callAt Gen.Dense.fns fuel (k + 2) "eventually_timed_operation" [encSig s, .int 0, .tm (.fin b)]
+      = (evTimed s 0 b).map encSig :=
+  gen_ev_timed_beg fuel k s 0 b _ BegOK.int0 hfuel
+
+end GenBack
 
 end Rtamt.Py.Dn
